@@ -2051,7 +2051,9 @@ static void get_user_data (interactive_t* ip, io_event_t* evt) {
       return;
 
     case SOCKET_ERROR:
-      if ((err != EWOULDBLOCK) && (err != EILSEQ))
+      /* EINTR: the call was interrupted before it had read anything.  The data is still
+       * there and the poll reports the descriptor again; it is no end of the connection. */
+      if ((err != EWOULDBLOCK) && (err != EILSEQ) && (err != EINTR))
         {
           switch (err)
             {
